@@ -181,8 +181,13 @@ func reconfigureScenario(kind, n1, n2 int) Scenario {
 		node := h.build(sp)
 		a, err := flyt.Run(h.ctx, node, h.store)
 		h.finish(a, err)
-		// reconfigure through the builder method, then run the same object again
-		node.(*flyt.NodeBuilder).WithMaxRetries(n2)
+		// reconfigure — through the builder method, or by applying the plain option function to the
+		// node's embedded BaseNode — then run the same object again
+		if core.Choose(2) == 0 {
+			node.(*flyt.NodeBuilder).WithMaxRetries(n2)
+		} else {
+			flyt.WithMaxRetries(n2)(node.(*flyt.NodeBuilder).BaseNode)
+		}
 		sp.n = n2
 		h.nextRun()
 		a, err = flyt.Run(h.ctx, node, h.store)
